@@ -175,6 +175,12 @@ func NewScenario(seed uint64, profile string) *Scenario {
 	case "hostile":
 		p.SlashAmount = []uint64{5000, 1 << 62}[rng.IntN(2)]
 		p.FreezeInterval = rng.Uint64N(2)
+	case "evidence":
+		// Many validators, frequent consensus evidence with old infraction heights (history.go),
+		// a freeze interval that always applies, moderate slashing.
+		p.NumValidators = 5 + rng.IntN(3)
+		p.SlashAmount = 500
+		p.FreezeInterval = 1 + rng.Uint64N(2)
 	case "election":
 		p.NumValidators = 4 + rng.IntN(5)
 		p.MaxValidators = 2 + rng.IntN(p.NumValidators)
